@@ -243,8 +243,49 @@ let handle_gamegen line args obs =
     end else bump "gamegen/not-wf"
   | _ -> failwith ("bad gamegen line: " ^ short line)
 
+(* captures P side sq => piece:sq,...     (eval.FindCapture) *)
+let handle_captures line args obs =
+  match args with
+  | [ptok; side; sq] ->
+    let p = parse_pos ptok and c = n_of_int (int_of_string side) and s = n_of_int (int_of_string sq) in
+    let model = String.concat "," (List.map (fun (pc, f) -> Printf.sprintf "%d:%d" (int_of_n pc) (int_of_n f)) (find_capture p c s)) in
+    let model = if model = "" then "-" else model in
+    if model <> String.trim obs then report_mismatch line model;
+    if inv_b p then begin
+      bump "captures";
+      let spec = List.sort compare (List.map (fun (k, f) -> Printf.sprintf "%d:%d" (kind_code k) (int_of_nat f))
+                                      (spec_capturers (abs_pos p).brd (color_of c) (nat_of_int (int_of_string sq)))) in
+      let got = List.sort compare (if String.trim obs = "-" then [] else split_on ',' (String.trim obs)) in
+      if got <> [] then bump "captures/nonempty";
+      if spec <> got then report_spec ~key:"prop=C06" line ("pieces that can capture on the square: " ^ String.concat "," spec)
+    end
+  | _ -> failwith "bad captures line"
+
+(* pins P side piece => attacker:pinned:target,...     (eval.FindPins) *)
+let handle_pins line args obs =
+  match args with
+  | [ptok; side; piece] ->
+    let p = parse_pos ptok and c = n_of_int (int_of_string side) and pc = n_of_int (int_of_string piece) in
+    let model = String.concat "," (List.map (fun ((a, pi), t) -> Printf.sprintf "%d:%d:%d" (int_of_n a) (int_of_n pi) (int_of_n t)) (find_pins p c pc)) in
+    let model = if model = "" then "-" else model in
+    if model <> String.trim obs then report_mismatch line model;
+    if inv_b p then begin
+      bump "pins";
+      match kind_of pc with
+      | Some k ->
+        let spec = List.sort compare (List.map (fun ((a, pi), t) -> Printf.sprintf "%d:%d:%d" (int_of_nat a) (int_of_nat pi) (int_of_nat t))
+                                        (spec_pins (abs_pos p).brd (color_of c) k)) in
+        let got = List.sort compare (if String.trim obs = "-" then [] else split_on ',' (String.trim obs)) in
+        if got <> [] then bump "pins/nonempty";
+        if spec <> got then report_spec ~key:"prop=C06" line ("pins: " ^ String.concat "," spec)
+      | None -> ()
+    end
+  | _ -> failwith "bad pins line"
+
 let handle (line : string) (kind : string) (args : string list) (obs : string) : unit =
   match kind with
+  | "captures" -> handle_captures line args obs
+  | "pins" -> handle_pins line args obs
   | "movegen" -> handle_movegen line args obs
   | "gamegen" -> handle_gamegen line args obs
   | "move" -> handle_move line args obs
